@@ -113,6 +113,26 @@ func c09Oracle(in c09In) probe.Outcome {
 		labels = append(labels, "exponent-special")
 		nontrivial = true
 	}
+	// The caller keeps ONE number object for its exponent and gives it a new value (same size) for the next exchange; and it
+	// computes the first party's public value once more afterwards: each call answers for the value the object holds then.
+	{
+		e := new(big.Int).Set(x)
+		var p1, p2, p3 []byte
+		x3 := new(big.Int).Xor(x, big.NewInt(1))
+		if err := probe.Try(func() error {
+			p1 = g.GetPublicValue(e)
+			e.Xor(e, big.NewInt(1)) // in place
+			p2 = g.GetPublicValue(e)
+			e.Set(x)
+			p3 = g.GetPublicValue(e)
+			return nil
+		}); err != nil {
+			return probe.Fail("GetPublicValue: %v", err)
+		}
+		if !bytes.Equal(p1, want) || !bytes.Equal(p3, want) || !bytes.Equal(p2, ref.LeftPad(ref.ModExp(big.NewInt(2), x3, P), n)) {
+			return probe.Fail("GetPublicValue called three times with one exponent object whose value was changed in between (x, x xor 1, x) does not give 2^value mod p each time")
+		}
+	}
 	// agreement between two parties
 	pub2, err := c09Pub(g, x2)
 	if err != nil {
@@ -336,6 +356,15 @@ var c09Random = probe.Define("C09", "exponents", func(t *rapid.T) c09RandIn {
 			labels = append(labels, "peer-value-given")
 		}
 		sa := newInfoSA(bridge.SuiteSel{DH: in.Group})
+		if len(in.Stream)%2 == 1 {
+			// the SA object served a key exchange in the OTHER group before (a retried negotiation: INVALID_KE_PAYLOAD)
+			sa.DhInfo = dh.StrToType(ref.DHs[1-in.Group].Name)
+			if _, _, e := security.CalculateDiffieHellmanMaterials(sa, []byte{2}); e != nil {
+				return probe.Fail("CalculateDiffieHellmanMaterials: %v", e)
+			}
+			sa.DhInfo = dh.StrToType(ref.DHs[in.Group].Name)
+			labels = append(labels, "sa-object-used-with-the-other-group-before")
+		}
 		var pub, shared []byte
 		probe.WithEntropyOpts(probe.EntropyOpts{Stream: in.Stream, MaxRead: in.MaxRead}, func(*probe.Entropy) {
 			err = probe.Try(func() error {
